@@ -51,11 +51,13 @@ def make_spec(case, opened):
     rnd = random.Random(case['cseed'])
     want = case.get('want')
     if want:
-        pool = gen.VAR_POOL if want in ('user_name_like_generated', 'name_like_edge_local', 'derived_label_name_with_multi_driven_input') else gen.SAFE_POOL
+        pool = {'user_name_like_generated': gen.DERIVED_POOL, 'derived_label_name_with_multi_driven_input': gen.DERIVED_POOL,
+                'name_like_edge_local': gen.EDGE_LOCAL_POOL}.get(want, gen.SAFE_POOL)
         others = set(opened) - {want}
         return gen.gen_net(rnd, pool=pool, allow=lambda s, f, r: want in r, forbid=others,
                            edge_density=rnd.choice([0.3, 0.6, 1.0]), n_nodes=rnd.choice([2, 3, 4, 5]))
-    return gen.gen_net(rnd, forbid=opened)
+    pool = gen.VAR_POOL if 'name_like_edge_local' not in opened else gen.MAIN_POOL
+    return gen.gen_net(rnd, pool=pool, forbid=opened)
 
 
 def run_case(case, ctx):
